@@ -175,8 +175,7 @@ theorem core_iff_admitB (c : Cfg) (m : Msg) (o : Oracles) (f : Fam) (hsel : Sele
       Bool.and_true]
     cases h4 : isV4 ((overrideOf m f).getD ph)
     · simp
-    · simp only [hfam h4, Bool.not_true, Bool.false_or, Bool.true_and, Bool.not_eq_true', Bool.and_eq_false_imp,
-        Bool.not_eq_true', Bool.or_true]
+    · simp only [hfam h4, Bool.not_true, Bool.true_and]
       cases hps : m.prescanned
       · simp only [Bool.not_false, Bool.true_and]
         have := hlive ⟨hps, h4⟩
@@ -726,7 +725,7 @@ theorem one_share_per_message (c : Cfg) (s : RSt) (m : Msg) (o : Oracles) (hsel 
 /-- an admitted registration satisfies the announcement-relevant guarantees C10 starts from, provided
 the transport's protocol is TCP or UDP (`CJ.Props.C10.transport_protos_acceptable`) -/
 theorem admitted_announceable (c : Cfg) (m : Msg) (o : Oracles) (f : Fam) (hsel : SelectorFam o) (r : Reg)
-    (hr : regOf c m o f = some r) (hsel6 : ∀ ph rnd, o.sel6 = some (ph, rnd) → ph.length = 16)
+    (hr : regOf c m o f = some r)
     (hproto : o.proto = CJ.Detector.protoTcp ∨ o.proto = CJ.Detector.protoUdp)
     (hport : ∀ p, o.tpPort = some p → p < 65536) :
     CJ.Props.C10.Announceable
@@ -757,8 +756,68 @@ theorem admitted_announceable (c : Cfg) (m : Msg) (o : Oracles) (f : Fam) (hsel 
     cases m.rr with
     | none => exact hp443
     | some rr =>
-      cases rr.dstPort with
-      | none => exact hp443
-      | some q => exact Nat.mod_lt _ (by decide)
+      cases hd : rr.dstPort with
+      | none => simp only [hd]; exact hp443
+      | some q => simp only [hd]; exact Nat.mod_lt q (by decide : 0 < 65536)
+
+/-- C07 ∘ C10: the announcement the station makes for a registration that ingest built (New when it
+is validated, Update once used) is accepted by the detector as that registration's session, with the
+station's own lifetime for that state. -/
+theorem admitted_announcement_accepted (c : Cfg) (m : Msg) (o : Oracles) (f : Fam) (hsel : SelectorFam o) (r : Reg)
+    (hr : regOf c m o f = some r)
+    (hproto : o.proto = CJ.Detector.protoTcp ∨ o.proto = CJ.Detector.protoUdp)
+    (hport : ∀ p, o.tpPort = some p → p < 65536) (st : CJ.Props.C10.RegState) :
+    ∃ ph cl, CJ.Detector.ipOf r.phantom = some ph ∧ CJ.Detector.ipOf r.registrant = some cl ∧
+      CJ.Detector.dispatch
+          (CJ.Props.C10.announce { phantom := r.phantom, registrant := r.registrant, port := r.port, proto := r.proto } st) =
+        .addOrUpdate { client := cl, phantom := ph, dstPort := r.port, srcPort := 0,
+                       proto := CJ.Props.C10.nextHeader r.proto, timeout := CJ.Props.C10.stationLifetime st } :=
+  CJ.Props.C10.timeouts_match _ (admitted_announceable c m o f hsel r hr hproto hport) st
+
+/-! ### non-vacuity: the hypotheses are satisfiable, and every condition can be the only one that fails -/
+
+theorem fresh_init (c : Cfg) (m : Msg) (o : Oracles) : Fresh c m o CJ.Registry.init := by
+  intro f r _
+  unfold CJ.Ingest.get CJ.Registry.init
+  exact Std.HashMap.getElem?_empty
+
+/-- on an empty registry the iff holds with no hypothesis on the state -/
+theorem admitted_iff_init (c : Cfg) (m : Msg) (o : Oracles) (f : Fam) (hsel : SelectorFam o) :
+    admitted c CJ.Registry.init m o f ↔ Conditions c m o f :=
+  admitted_iff_conditions c _ m o f hsel (fresh_init c m o)
+
+def c0 : Cfg :=
+  { enableV4 := true, enableV6 := true, shareOverAPI := true, transports := [1, 4], blocklist := [([192, 122, 0, 0], 16)] }
+def m0 : Msg :=
+  { payload := true, v4Support := true, v6Support := true,
+    registrant := some [0, 0, 0, 0, 0, 0, 0, 0, 0, 0, 0xff, 0xff, 203, 0, 113, 9],
+    source := srcDetector, transport := 1, libVer := 4, prescanned := false, rr := none }
+def o0 : Oracles :=
+  { sel4 := some ([198, 51, 100, 7], true), sel6 := some ([0x20, 1, 0x48, 0xa8, 0x68, 0x7f, 0, 1, 0, 0, 0, 0, 0, 0, 0, 5], true),
+    paramsOk := true, tpPort := some 50123, proto := 1, geoOk := true, covertOk := true, live := false, ident := "id" }
+
+example : SelectorFam o0 :=
+  ⟨by intro ph rnd h; cases h; decide, by intro ph rnd h; cases h; decide⟩
+example : admitB c0 m0 o0 .v4 = true := by decide
+example : admitB c0 m0 o0 .v6 = true := by decide
+-- one input flipped at a time, everything else as in the admitted base case
+example : admitB c0 { m0 with payload := false } o0 .v4 = false := by decide
+example : admitB c0 { m0 with v4Support := false } o0 .v4 = false := by decide
+example : admitB { c0 with enableV4 := false } m0 o0 .v4 = false := by decide
+example : admitB { c0 with enableV6 := false } m0 o0 .v6 = false := by decide
+example : admitB c0 { m0 with registrant := none } o0 .v4 = false := by decide            -- no IPv4 registrant
+example : admitB c0 { m0 with registrant := some [1, 2, 3, 4, 5] } o0 .v6 = false := by decide
+example : admitB c0 { m0 with transport := 99 } o0 .v4 = false := by decide
+example : admitB c0 m0 { o0 with paramsOk := false } .v4 = false := by decide
+example : admitB c0 m0 { o0 with tpPort := none } .v4 = false := by decide
+example : admitB c0 { m0 with rr := some { ipv6 := some [1, 2, 3] } } o0 .v6 = false := by decide
+example : admitB c0 m0 { o0 with geoOk := false } .v4 = false := by decide
+example : admitB c0 m0 { o0 with covertOk := false } .v4 = false := by decide
+example : admitB c0 m0 { o0 with sel4 := none } .v4 = false := by decide                  -- unknown generation / no IPv4 subnets
+example : admitB c0 m0 { o0 with sel4 := none } .v6 = true := by decide                   -- … which does not cancel the IPv6 twin
+example : admitB c0 m0 { o0 with sel4 := some ([192, 122, 190, 5], true) } .v4 = false := by decide   -- blocklisted phantom
+example : admitB c0 m0 { o0 with live := true } .v4 = false := by decide
+example : admitB c0 m0 { o0 with live := true } .v6 = true := by decide                   -- IPv6 is never probed
+example : admitB c0 { m0 with prescanned := true } { o0 with live := true } .v4 = true := by decide  -- pre-scanned: no probe
 
 end CJ.Props.C07
